@@ -8,8 +8,9 @@ REPO="${VP_RUN_REPO:-/repo}"
 [ -n "$(git -C "$REPO" status --porcelain)" ] && { echo "$REPO working tree is not clean"; exit 2; }
 trap 'git -C "$REPO" checkout -q -- .' EXIT
 missed=0
+# optional argument: a regular expression selecting seed ids (e.g. '-[jkl]$')
 for d in "$PWD"/seeded/*/; do
-  id=$(basename "$d"); prop=$(python3 -c "import json;print(json.load(open('$d/meta.json'))['breaks_property'])")
+  id=$(basename "$d"); [ -n "${1:-}" ] && ! [[ "$id" =~ $1 ]] && continue; prop=$(python3 -c "import json;print(json.load(open('$d/meta.json'))['breaks_property'])")
   if python3 -c "import json,sys;sys.exit(0 if json.load(open('$d/meta.json')).get('outside_the_property') else 1)"; then echo "$id $prop kept for the record, outside the property as stated (see meta.json)"; continue; fi
   if ! git -C "$REPO" apply --check "$d/patch.diff" 2>/dev/null; then echo "$id $prop patch no longer applies (the code it changes has moved)"; continue; fi
   git -C "$REPO" apply "$d/patch.diff"
@@ -21,7 +22,7 @@ for d in "$PWD"/seeded/*/; do
     n=$(echo "$out" | grep -c '^VIOLATION')
     first=$(echo "$out" | grep -m1 -E "violation\[0\]" | cut -c1-160)
     echo "$id $prop check=$c exit=$code violation_lines=$n $first"
-    [ $code -eq 1 ] && hit=1
+    [ $code -eq 1 ] && { hit=1; break; }
   done
   git -C "$REPO" checkout -q -- .
   [ $hit -ne 1 ] && { missed=$((missed+1)); echo "$id NOT DETECTED"; }
